@@ -1,7 +1,7 @@
 #!/usr/bin/env python3
 """Confirms seeded breaking changes and runs the checks against them.
 
-usage: tools/seedcheck.py <PROP> <seed-out-dir> [--pkg <repo-pkg-dir-of-demo>] [--tier quick|thorough] [--only n,n]
+usage: tools/seedcheck.py <PROP> <seed-out-dir> [--pkg <repo-pkg-dir-of-demo>] [--tier quick|thorough|both] [--only n,n] [--race 1]
  <seed-out-dir>/<n>/{patch.diff,demo_test.go,notes.md}   (written by an independent sub-agent that never saw /verif)
 
 For every n:
@@ -30,7 +30,7 @@ def sh(cmd, cwd=None, env=None, timeout=3600):
 
 def main():
     prop, src = sys.argv[1].upper(), sys.argv[2]
-    pkg, tier, only = None, "quick", None
+    pkg, tier, only, race = None, "quick", None, []
     a = sys.argv[3:]
     while a:
         if a[0] == "--pkg":
@@ -39,6 +39,8 @@ def main():
             tier = a[1]
         elif a[0] == "--only":
             only = set(a[1].split(","))
+        elif a[0] == "--race":  # the demonstration needs the race detector (a[1] is ignored: pass `--race 1`)
+            race = ["-race"]
         a = a[2:]
     for n in sorted(os.listdir(src)):
         d = os.path.join(src, n)
@@ -91,12 +93,12 @@ def main():
             dst = os.path.join(wt, dpkg, "zz_seed_demo_test.go")
             shutil.copy(demo, dst)
             runre = "^(" + "|".join(tests) + ")$"
-            rc1, out1 = sh(["go", "test", "-count=1", "-vet=off", "-run", runre, "./" + dpkg + "/"], cwd=wt)
+            rc1, out1 = sh(["go", "test", "-count=1", "-vet=off"] + race + ["-run", runre, "./" + dpkg + "/"], cwd=wt)
             meta["demo_fails_with_patch"] = rc1 != 0 and "FAIL" in out1
             os.remove(dst)
             sh(["git", "apply", "-R", os.path.join(d, "patch.diff")], cwd=wt)
             shutil.copy(demo, dst)
-            rc2, out2 = sh(["go", "test", "-count=1", "-vet=off", "-run", runre, "./" + dpkg + "/"], cwd=wt)
+            rc2, out2 = sh(["go", "test", "-count=1", "-vet=off"] + race + ["-run", runre, "./" + dpkg + "/"], cwd=wt)
             meta["demo_passes_without_patch"] = rc2 == 0
             os.remove(dst)
             sh(["git", "apply", os.path.join(d, "patch.diff")], cwd=wt)
